@@ -9,11 +9,20 @@ From TT Require Import Lib.Base Model.TextRepr Model.Assertions Spec.C07 Corr.C0
    models of text_repr - the literal transliteration text_repr_lit and the per-character
    text_repr_tok - must give the same output; this is computed by the model on every case of the
    correspondence (the model's observation is OBad otherwise, which disagrees with any
-   implementation), it is not proved.  Gap 2: for IDesc the model's str()/describe()/get_details()
+   implementation), it is not proved.  Hypothesis [finding_F21 i = false]: see C07_refuted_F21.  Gap 2: for IDesc the model's str()/describe()/get_details()
    are total by construction; what is checked is the implementation, by sampling. *)
-Theorem C07_holds : forall i : input, wf i -> agree i = true -> spec_okb i (model i) = true.
+Theorem C07_holds : forall i : input, wf i -> agree i = true -> finding_F21 i = false -> spec_okb i (model i) = true.
 Proof. exact model_meets_spec. Qed.
 Print Assumptions C07_holds.
+
+(* Known finding F21 (Spec.C07.finding_F21: setUp raises and an executed expectThat mismatched): _run_core returns
+   after a failed setUp without consulting force_failure, so the statement is false of the faithful model there:
+   expectThat mismatches in setUp, setUp then skips -> the model (and the code) report a skip. *)
+Theorem C07_refuted_F21 :
+  exists i, wf i /\ agree i = true /\ finding_F21 i = true /\ spec_okb i (model i) = false
+            /\ model i = OTest [[false; true]] true Skip [("a", 1)%string].
+Proof. exact refuted_F21. Qed.
+Print Assumptions C07_refuted_F21.
 
 Theorem C07_statement : forall i o, spec_okb i o = true -> Spec i o.
 Proof. exact spec_okb_sound. Qed.
@@ -51,29 +60,58 @@ Theorem C07_unique_fresh : forall existing base,
 Proof. exact unique_fresh. Qed.
 Print Assumptions C07_unique_fresh.
 
-(* assertThat / assert_that raise exactly when match() returns a mismatch, expectThat never raises,
-   nothing runs after a raise; tearDown and cleanups run before the outcome; the outcome is a failure
-   iff some executed statement mismatched; the details are the old ones followed by fresh-named ones *)
-Theorem C07_run_test : forall (pre : list detail) (steps : list step), NoDup (map fst pre) ->
+(* What the model does with a whole test, for every program: setUp, then - unless setUp raised - the test method
+   and tearDown, then the cleanups last registered first, each function up to its first statement that raises;
+   statement k raises exactly as exp_raised says; the outcome is reported after all of them and is that of the
+   exception caught last, the forced failure of a mismatching expectThat being raised after everything else
+   (model_outcome); the details are the old ones followed by fresh-named ones, one per request. *)
+Theorem C07_run_test : forall p : prog, NoDup (map fst (p_pre p)) ->
   exists tail,
-    run_test pre steps = {| r_raised := exp_raised steps; r_after_ran := true;
-                            r_outcome := if any_mismatch steps then Failure else Success;
-                            r_details := Some (pre ++ tail)%list |}
-    /\ Inv (pre ++ flat_map requests_of_step (exec steps))%list (pre ++ tail)%list.
+    run_test p = {| r_raised := map exp_raised (phases p); r_after_ran := true;
+                    r_outcome := model_outcome p;
+                    r_details := Some (p_pre p ++ tail)%list |}
+    /\ Inv (p_pre p ++ flat_map requests_of_step (flat_map exec (phases p)))%list (p_pre p ++ tail)%list.
 Proof. exact run_test_spec. Qed.
 Print Assumptions C07_run_test.
 
+(* ... and that outcome is one the statement allows whenever the input is outside finding F21 *)
+Theorem C07_outcome : forall p : prog, setup_raises p && expect_failed p = false -> outcome_okb p (model_outcome p) = true.
+Proof. exact model_outcome_ok. Qed.
+Print Assumptions C07_outcome.
+
+(* assertThat / assert_that raise exactly when match() returns a mismatch, expectThat never raises, a raise
+   statement raises; nothing of the same function runs after a raise (any function of the test, any position) *)
 Theorem C07_assert_iff : forall steps k b, nth_error (exp_raised steps) k = Some b ->
-  exists s, nth_error steps k = Some s /\ b = is_assert (s_kind s) && is_some (s_mis s)
+  exists s, nth_error steps k = Some s
+            /\ b = match s_kind s with
+                   | AssertThat | AssertThatFn => is_some (s_mis s)
+                   | ExpectThat => false
+                   | Raise _ => true
+                   end
             /\ (b = true -> List.length (exp_raised steps) = S k).
 Proof. exact exp_raised_nth. Qed.
 Print Assumptions C07_assert_iff.
 
-(* a body of expectThat statements only: every statement runs, none raises *)
-Theorem C07_expect : forall steps, existsb raises_step steps = false ->
+(* expectThat: a mismatch makes the test a failure once it has finished, whatever else the test does before or
+   afterwards - skip, expected failure, unexpected success, error, in the test method, tearDown or a cleanup,
+   the expectThat itself standing in any of them - provided setUp returns (finding F21 otherwise) *)
+Theorem C07_expect : forall p : prog, NoDup (map fst (p_pre p)) ->
+  setup_raises p = false -> expect_failed p = true ->
+  r_outcome (run_test p) = Failure /\ r_raised (run_test p) = map exp_raised (phases p).
+Proof. exact expect_forces_failure. Qed.
+Print Assumptions C07_expect.
+
+(* ... and it never raises, wherever it stands *)
+Theorem C07_expect_never_raises : forall steps k s b,
+  nth_error steps k = Some s -> s_kind s = ExpectThat -> nth_error (exp_raised steps) k = Some b -> b = false.
+Proof. exact expect_never_raises. Qed.
+Print Assumptions C07_expect_never_raises.
+
+(* a function of expectThat statements only: every statement runs, none raises *)
+Theorem C07_expect_only : forall steps, existsb raises_step steps = false ->
   exp_raised steps = map (fun _ => false) steps /\ exec steps = steps.
 Proof. exact exp_raised_expect_only. Qed.
-Print Assumptions C07_expect.
+Print Assumptions C07_expect_only.
 
 (* non-vacuity *)
 Example C07_example :
@@ -84,11 +122,21 @@ Example C07_example :
   /\ text_repr_lit false np [97; 39; 39; 39; 98; 10; 133]%N None
      = text_repr_tok false np [97; 39; 39; 39; 98; 10; 133]%N None
   /\ eval_lit (text_repr_lit false np [97; 39; 39; 39; 98; 10; 133]%N None) = Some (false, [97; 39; 39; 39; 98; 10; 133]%N)
-  /\ r_details (run_test [("a", 1)]%string
-                  [{| s_kind := ExpectThat; s_mis := Some [("a", 2); ("a-1", 3)]%string |};
-                   {| s_kind := AssertThat; s_mis := Some [("a", 4)]%string |};
-                   {| s_kind := ExpectThat; s_mis := Some [("b", 5)]%string |}])
+  /\ r_details (run_test {| p_pre := [("a", 1)]%string; p_setup := [];
+                            p_body := [{| s_kind := ExpectThat; s_mis := Some [("a", 2); ("a-1", 3)]%string |};
+                                       {| s_kind := AssertThat; s_mis := Some [("a", 4)]%string |};
+                                       {| s_kind := ExpectThat; s_mis := Some [("b", 5)]%string |}];
+                            p_teardown := []; p_cleanups := [] |})
      = Some [("a", 1); ("a-1", 2); ("a-1-1", 3); ("Failed expectation", 0); ("a-2", 4)]%string
-  /\ r_outcome (run_test [] [{| s_kind := ExpectThat; s_mis := Some [] |}; {| s_kind := AssertThat; s_mis := None |}]) = Failure
-  /\ r_raised (run_test [] [{| s_kind := ExpectThat; s_mis := Some [] |}; {| s_kind := AssertThat; s_mis := None |}]) = [false; false].
+  (* a failed expectation, then the test skips; a cleanup reaches an expected failure: still a failure *)
+  /\ (let p := {| p_pre := []; p_setup := [];
+                  p_body := [{| s_kind := ExpectThat; s_mis := Some [] |}; {| s_kind := Raise XSkip; s_mis := None |};
+                             {| s_kind := AssertThat; s_mis := None |}];
+                  p_teardown := [{| s_kind := AssertThat; s_mis := None |}];
+                  p_cleanups := [[{| s_kind := Raise XXFail; s_mis := None |}]] |} in
+      r_outcome (run_test p) = Failure /\ r_raised (run_test p) = [[]; [false; true]; [false]; [true]]
+      /\ setup_raises p = false /\ expect_failed p = true)
+  (* without the expectation the exception caught last decides *)
+  /\ r_outcome (run_test {| p_pre := []; p_setup := []; p_body := [{| s_kind := Raise XSkip; s_mis := None |}];
+                            p_teardown := []; p_cleanups := [[{| s_kind := Raise XXFail; s_mis := None |}]] |}) = ExpFailure.
 Proof. vm_compute. repeat split. Qed.
